@@ -154,7 +154,7 @@ def aset_words(ctx):
     mrecs = h.run_model(["Q - " + zwcorr.hx(q) for q in progs])
     ok = 0
     for q, w, r, m in zip(progs, want, recs, mrecs):
-        if r.err == "crash":
+        if r.err in ("crash", "skipped"):
             ctx.violation("the library crashed on %r" % q, {"stream": "C16-words", "input": q})
             continue
         if isinstance(w, bool):
